@@ -6,8 +6,8 @@ Engine E3.  Cases are pairs (base schema model, edits): every elementary edit of
 every applicable position of four base schemas, the full matrix of wrapper changes (<= 2 list
 levels, 14 x 13 ordered pairs) at each of five position kinds, and (thorough) all pairs of edits.
 Both schemas of a pair are built through SDL *and* through the constructors, under three definition
-orders each, diffed in-process, and diffed again in eight child processes running under
-PYTHONHASHSEED = 0..7.
+orders each, diffed in-process, and diffed again (SDL-built) in child interpreters running under
+PYTHONHASHSEED = 0..3 (quick) / 0..7 (thorough).
 
 Oracles (reference side: mc/ref/diff.py, all own code over the plain-data model):
   (a) structurally equal models (any definition order, any route)  =>  no change reported;
@@ -15,7 +15,8 @@ Oracles (reference side: mc/ref/diff.py, all own code over the plain-data model)
       the right class whose message names the edited element;
   (c) no BREAKING change reported  =>  must_break(old, new) is empty (own covariance for output
       positions, contravariance for input positions, no new required input, nothing removed) and
-      every generated operation (mc.gen.cs_ops) valid against old validates against new;
+      every generated operation (mc.gen.cs_ops) that is valid against old and touches a type or
+      directive the edit touches validates against new (all operations for root / schema-level edits);
   (d) the sequence of changes is the same for every definition order, route and hash seed.
 """
 import atexit
@@ -35,7 +36,7 @@ TECHNIQUE = "bounded-exhaustive enumeration of (schema, elementary edit(s)) pair
 LEVEL_TEXT = (
     "Every elementary edit at every position of the base schemas, and every ordered pair of wrapper shapes up to two list "
     "levels at every position kind, is enumerated (no sampling); the real diff_schema is run on each pair under permuted "
-    "definition orders, both construction routes and eight hash seeds (separate interpreters) and compared with an independent "
+    "definition orders, both construction routes and 4 (quick) / 8 (thorough) hash seeds (separate interpreters) and compared with an independent "
     "reference differ / covariance oracle plus a generated set of client operations judged by validate_ast. Exhaustive inside "
     "the bound; small-scope argument beyond."
 )
@@ -47,7 +48,7 @@ LEVEL_NOTE = (
 DESIGN_REF = "DESIGN.md section 6, C20"
 RULE = (
     "case = chunk of (base id, edit list); pair = one (old model, new model); evaluation = one diff_schema run whose change "
-    "sequence is compared (in-process: routes x order combinations; children: 8 hash seeds x 2 routes); non-trivial = distinct "
+    "sequence is compared (in-process: 2 routes x order combinations; children: one SDL-built diff per hash seed); non-trivial = distinct "
     "pair whose edited model is accepted by the real validator and for which the reference differ finds >= 1 difference "
     "(or the equal-schema cases, where both sides must find none)"
 )
@@ -55,7 +56,8 @@ ASSUMPTIONS = [
     "edited models the real schema validator rejects are skipped and counted (edit_yields_invalid_schema)",
     "descriptions are not edited: the property's list of elementary edits does not contain them",
     "root operation type changes are judged by the soundness clause (c) only; they are not in the property's list for clause (b)",
-    "hash seeds 0..7 in separate interpreters stand for 'any hash ordering' (sets iterated by the differ have <= 3 elements here)",
+    "clause (c3): an edit can only invalidate operations that touch (traverse, select from, pass an argument of, spread on, apply) a type or directive named by one of the edit's elementary differences; only those are re-validated",
+    "hash seeds 0..3 (quick) / 0..7 (thorough) in separate interpreters stand for 'any hash ordering' (sets iterated by the differ have <= 3 elements here); the children diff SDL-built schemas",
     "no recursive input objects in the bases (building them from SDL overflows the stack on the pinned tree, a C11 matter)",
 ]
 BOUNDS = {
@@ -65,7 +67,7 @@ BOUNDS = {
         "wrapper_list_levels": 2,
         "wrapper_position_kinds": 5,
         "pairs": "set-like edits on base 'members' only",
-        "hash_seeds": 8,
+        "hash_seeds": 4,
         "definition_orders": 3,
     },
     "thorough": {
@@ -78,7 +80,7 @@ BOUNDS = {
         "definition_orders": 3,
     },
 }
-TIME_CAP = {"quick": 150, "thorough": 1500}
+TIME_CAP = {"quick": 200, "thorough": 1500}
 
 SEEDS = list(range(8))
 CHUNK = 16
@@ -130,6 +132,12 @@ def _edit_list(base, reduced=False):
 
 
 def cases(tier):
+    for case in _cases(tier):
+        case["seeds"] = BOUNDS[tier]["hash_seeds"]
+        yield case
+
+
+def _cases(tier):
     bases = BOUNDS[tier]["bases"]
     # (a) equal schemas
     for b in bases:
@@ -218,13 +226,13 @@ def _items_of(case):
 _CH = {"pid": None, "procs": {}}
 
 
-def _children():
+def _children(seeds=None):
     pid = os.getpid()
     if _CH["pid"] != pid:
         _CH["pid"] = pid
         _CH["procs"] = {}
     procs = _CH["procs"]
-    for k in SEEDS:
+    for k in (seeds if seeds is not None else SEEDS):
         p = procs.get(k)
         if p is None or p.poll() is not None:
             env = dict(os.environ)
@@ -261,15 +269,19 @@ def _close_children():
 atexit.register(_close_children)
 
 
-def _ask_children(items):
-    """-> {seed: [ {route: SEQ|{"error"}} per item ]}"""
-    procs = _children()
+def _send_children(items, seeds):
+    procs = _children(seeds)
     line = json.dumps({"items": items}) + "\n"
-    for k in SEEDS:
+    for k in seeds:
         procs[k].stdin.write(line)
         procs[k].stdin.flush()
+    return procs
+
+
+def _recv_children(procs, seeds):
+    """-> {seed: [ {route: SEQ|{"error"}} per item ]}"""
     out = {}
-    for k in SEEDS:
+    for k in seeds:
         ans = procs[k].stdout.readline()
         if not ans:
             raise RuntimeError("hash-seed worker %d died" % k)
@@ -282,6 +294,7 @@ def _ask_children(items):
 
 _OLD_CACHE = {}
 _OPS_CACHE = {}
+_OPS_USES = {}
 _TOKEN = re.compile(r"[A-Za-z_][A-Za-z0-9_]*")
 
 SETDIFF_GROUP = {
@@ -317,6 +330,7 @@ def _valid_ops(base, sm, schema):
 
         if len(_OPS_CACHE) > 64:
             _OPS_CACHE.clear()
+            _OPS_USES.clear()
         ok, dropped = [], 0
         for tag, text in cs_ops.gen_ops(sm):
             ast = parse(text)
@@ -325,6 +339,7 @@ def _valid_ops(base, sm, schema):
             else:
                 ok.append((tag, text, ast))
         _OPS_CACHE[base] = (ok, dropped)
+        _OPS_USES[base] = dict(cs_ops.USES)
     return _OPS_CACHE[base]
 
 
@@ -456,8 +471,17 @@ def _inproc(item, st):
             st.n("c3_pairs_checked_with_operations")
             st.mx("operations_per_schema", len(ops))
             st.mx("generated_operations_invalid_against_old", dropped)
+        # only operations touching a type / directive the edit touches can change verdict
+        # (cs_ops.USES); root operation changes and schema-level edits run the whole set
+        touched = set()
+        for r in ref:
+            touched.update(r["names"])
+            touched.update("@" + n for n in r["names"])
+        run_all = roots_changed or not ref
         broken = []
         for tag, text, ast in ops:
+            if not run_all and tag != "root" and not (touched & set(_OPS_USES[base].get(text, ()))):
+                continue
             if st is not None:
                 st.n("operation_validations")
             try:
@@ -486,10 +510,12 @@ def _seed_compare(item, base_seqs, answers, st):
     out = []
     desc = "%s + %s" % (item["base"], json.dumps(item["edits"]))
     distinct = set()
-    for k in SEEDS:
+    for k in sorted(answers):
         ans = answers[k]
         for route in cs_diffrun.ROUTES:
             seq = ans.get(route)
+            if seq is None:
+                continue
             if st is not None:
                 st.n("evaluations")
                 st.n("child_process_diffs")
@@ -514,21 +540,25 @@ def _seed_compare(item, base_seqs, answers, st):
     return out
 
 
-def evaluate_items(items, st=None):
+def evaluate_items(items, st=None, nseeds=len(SEEDS)):
     """-> list (per item) of list of (class, detail)"""
+    seeds = SEEDS[:nseeds]
+    # the children (one interpreter per hash seed) work on the batch while this process does
+    procs = _send_children(items, seeds)
     results = []
     pending = []
-    for item in items:
-        status, viols, base_seqs = _inproc(item, st)
-        if st is not None:
-            st.n("pairs_" + status)
-        results.append(viols)
-        if status == "ok" and base_seqs is not None:
-            pending.append((len(results) - 1, item, base_seqs))
-    if pending:
-        answers = _ask_children([p[1] for p in pending])
-        for n, (idx, item, base_seqs) in enumerate(pending):
-            results[idx] = results[idx] + _seed_compare(item, base_seqs, {k: answers[k][n] for k in SEEDS}, st)
+    try:
+        for idx, item in enumerate(items):
+            status, viols, base_seqs = _inproc(item, st)
+            if st is not None:
+                st.n("pairs_" + status)
+            results.append(viols)
+            if status == "ok" and base_seqs is not None:
+                pending.append((idx, item, base_seqs))
+    finally:
+        answers = _recv_children(procs, seeds)
+    for idx, item, base_seqs in pending:
+        results[idx] = results[idx] + _seed_compare(item, base_seqs, {k: answers[k][idx] for k in seeds}, st)
     return results
 
 
@@ -543,7 +573,7 @@ def check_case(case, st):
         if st.out_of_time():
             break
         chunk = items[k : k + step]
-        for item, viols in zip(chunk, evaluate_items(chunk, st)):
+        for item, viols in zip(chunk, evaluate_items(chunk, st, case.get("seeds", len(SEEDS)))):
             seen = set()
             for cls, detail in viols:
                 if cls not in seen:
